@@ -71,6 +71,9 @@ class TlsProtocolVersion(ProtocolVersionBase, GradeableSimple):
         return self.major == 0x7e
 
     def __eq__(self, other):
+        if not isinstance(other, TlsProtocolVersion):
+            return NotImplemented
+
         return self.version.value.code == other.version.value.code
 
     def _order_key(self):
